@@ -257,6 +257,10 @@ def run(ctx, rep, model=True):
         # all the reader's own grid bookkeeping - not under test here - can cope with)
         spec["idx_shift"] = -ctx.rng.randint(1, min(spec["grid0"]) - 1) if (i % 5 in (2, 4) and min(spec["grid0"]) >= 2) else 0
         if spec["idx_shift"]: rep.count("negative-indices")
+        if i % 6 == 3:
+            # seven-digit cell indices in every direction (a fine level of a very large domain): FAB header lines of more
+            # than 120 bytes
+            spec["idx_shift"] = 1234567; rep.count("seven-digit-indices")
         if i % 4 == 1:
             spec["stray_empty"] = True; rep.count("zero-length-unreferenced-binary-files")
         run_spec(ctx, rep, spec, model, orders_for(ctx))
